@@ -165,6 +165,7 @@ func gsapLayers(tier string) []Layer {
 	k := []string{"GSAP"}
 	if tier == "thorough" {
 		return []Layer{
+			{Name: "gsap-longrepeat", Kinds: k, Geos: []lz.BufConfig{{BufferSize: 2048, WindowSize: 2048, BlockSize: 2048}, {BufferSize: 2048, WindowSize: 2048, BlockSize: 700}, {BufferSize: 1000, WindowSize: 2048, BlockSize: 300}}, Level: 0, Inputs: LongRepeats(), Menu: m, Bound: 1, CfgPerShard: 1},
 			{Name: "gsap-b0", Kinds: k, BufSizes: allQuickBuf, Level: 1, Inputs: Union(Binary(10), Ternary(7), ZeroA(7)), Menu: m, Bound: 0},
 			{Name: "gsap-b1", Kinds: k, BufSizes: []int{2, 3, 5, 8}, Level: 1, Inputs: Union(Binary(8), Ternary(5)), Menu: m, Bound: 1},
 			{Name: "gsap-b2", Kinds: k, BufSizes: []int{3, 5, 8}, Level: 1, Inputs: Binary(6), Menu: m, Bound: 2},
@@ -172,6 +173,7 @@ func gsapLayers(tier string) []Layer {
 		}
 	}
 	return []Layer{
+		{Name: "gsap-longrepeat", Kinds: k, Geos: []lz.BufConfig{{BufferSize: 2048, WindowSize: 2048, BlockSize: 2048}, {BufferSize: 2048, WindowSize: 2048, BlockSize: 700}}, Level: 0, Inputs: LongRepeats(), Menu: Menu{WriteChunks: true}, Bound: 0, CfgPerShard: 1},
 		{Name: "gsap-b0", Kinds: k, BufSizes: allQuickBuf, Level: 1, Inputs: Union(Binary(7), Ternary(4), ZeroA(4)), Menu: m, Bound: 0},
 		{Name: "gsap-b1", Kinds: k, BufSizes: []int{3, 5, 8}, Level: 1, Inputs: Binary(5), Menu: m, Bound: 1},
 		{Name: "gsap-long", Kinds: k, BufSizes: []int{80}, Level: 0, Inputs: StructuredSet(130), Menu: m, Bound: 0, CfgFilter: notTinyBlocks, CfgPerShard: 2},
@@ -187,6 +189,22 @@ func gsapResetLayers(tier string) []resetLayer {
 		}
 	}
 	return out
+}
+
+// LongRepeats: texts P[:a] # P[:b] $ P[:c] over a de Bruijn word P (no internal repeat of 5 letters), so that the
+// last copy has two earlier sources of different, long lengths (up to 600 bytes: beyond 255/256/273).
+func LongRepeats() InputSet {
+	return InputSet{"P[:a]#P[:b]$P[:c], P = deBruijn(acgt,5), (a,b,c) in a grid of {10,255,256,257,300,600}", func(f func([]byte)) {
+		P := DeBruijn([]byte("acgt"), 5)
+		for _, t := range [][3]int{{256, 257, 257}, {257, 256, 257}, {300, 600, 600}, {600, 300, 600}, {10, 255, 300}, {255, 600, 600}, {600, 255, 256}, {273, 274, 600}} {
+			s := append([]byte(nil), P[:t[0]]...)
+			s = append(s, '#')
+			s = append(s, P[:t[1]]...)
+			s = append(s, '$')
+			s = append(s, P[:t[2]]...)
+			f(s)
+		}
+	}}
 }
 
 // notTinyBlocks drops geometries with BlockSize <= 3 for the long inputs (hundreds of Parse calls add nothing).
